@@ -384,12 +384,37 @@ def concretise(rng, hid, codes, naddr=2):
 # ---------------------------------------------------------------------------------------------
 
 def run_histories(hx, hists):
-    r = subprocess.run([hx, "track"], input="\n".join(json.dumps(h, separators=(",", ":")) for h in hists) + "\n",
-                       stdout=subprocess.PIPE, stderr=subprocess.PIPE, text=True, timeout=3000)
-    if r.returncode != 0:
-        raise core.ToolError("hx track failed: " + r.stderr[-2000:])
+    """a history during which the code under test does not return (20 s) is data: it is recorded as reset / action with
+    outcome `panic` (flagged `timeout`) / end, and the run resumes with the next history"""
+    payload = "\n".join(json.dumps(h, separators=(",", ":")) for h in hists) + "\n"
+    lines, skip = [], 0
+    while True:
+        r = subprocess.run([hx, "track", "--skip", str(skip)], input=payload, stdout=subprocess.PIPE, stderr=subprocess.PIPE, text=True, timeout=3000)
+        got = r.stdout.splitlines()
+        if r.returncode == 0:
+            lines += got
+            break
+        m = re.search(r"HX-TIMEOUT index=(\d+)", r.stderr) if r.returncode == 3 else None
+        if not m:
+            raise core.ToolError("hx track failed: " + r.stderr[-2000:])
+        idx = int(m.group(1))
+        # keep the complete histories before the hung one, replace the hung one
+        keep, cur_lines = [], []
+        for ln in got:
+            cur_lines.append(ln)
+            if '"ev":"end"' in ln:
+                keep += cur_lines
+                cur_lines = []
+        h = hists[idx]
+        lines += keep
+        lines.append(json.dumps({"ev": "reset", "hist": h["id"], "rx": {"lat": h["rx"][0], "lon": h["rx"][1]}, "range_m": h["range_m"]}))
+        lines.append(json.dumps({"ev": "action", "bytes": [], "outcome": "panic", "timeout": 1, "added": 0, "planes": []}))
+        lines.append(json.dumps({"ev": "end", "hist": h["id"], "wall_ms": 20000}))
+        skip = idx + 1
+        if skip >= len(hists):
+            break
     groups, cur = [], None
-    for line in r.stdout.splitlines():
+    for line in lines:
         if not line.strip():
             continue
         e = json.loads(line)
